@@ -490,8 +490,14 @@ func VerifC19_Handler() {
 	c19Prior(cdc, srv)
 	method := c19OneOf("method", "POST", "GET", "")
 	body := &c19Body{}
-	kind := vChoice("body", 6)
+	kind := vChoice("body", 9)
 	switch kind {
+	case 6: // JSON literals that are not objects
+		body.data = []byte([]string{"null", " null\n", "[]", "0", "\"\"", "true"}[vChoice("literal", 6)])
+	case 7:
+		body.data = []byte("{}")
+	case 8:
+		body.data = []byte("")
 	case 0:
 		body.fail = true
 	case 1:
@@ -526,8 +532,11 @@ func VerifC19_Handler() {
 		if kind <= 1 {
 			vAssert(r.Code == 500, "C19.unreadable-or-undecodable-body-is-an-error")
 		}
-		if kind == 2 {
+		if kind == 2 || kind == 7 {
 			vAssert(r.Code == 400, "C19.unknown-request-type-is-400")
+		}
+		if kind == 6 || kind == 8 {
+			vAssert(r.Code == 400 || r.Code == 500, "C19.body-that-is-not-a-request-object-is-an-error")
 		}
 		if kind == 4 {
 			vAssert(r.Code == 200, "C19.list-succeeds")
